@@ -9,3 +9,4 @@ ASSUMPTIONS = ["A-LIB: numpy.random / tf.random deliver independent uniform vari
                "trusted only through the comparison with the independent implementations in the contracts"]
 
 from vt.contracts import iface_gen  # noqa: F401,E402
+from vt.contracts import interp_sym  # noqa: F401,E402
